@@ -36,9 +36,9 @@ vars == <<status, cfg, table, timer, fired, first, conn>>
 NoCfg == [dl |-> FALSE, ret |-> "-", nr |-> FALSE]
 NoEv  == [e |-> "none"]
 
-AllShapes  == {"none", "one", "struct", "many", "oneint"}
+AllShapes  == {"none", "one", "struct", "many", "oneint", "arrst"}
 AllEShapes == {"nobody", "msg", "nonstr", "msg2"}
-RetSigs    == {"nocheck", "", "s", "ss", "(ss)", "i"}
+RetSigs    == {"nocheck", "", "s", "ss", "(ss)", "i", "a(ss)"}
 
 Dev(n) == n \in Deviations
 
@@ -48,11 +48,13 @@ SigOf(sh) == CASE sh = "none"   -> ""
                [] sh = "struct" -> "(ss)"
                [] sh = "many"   -> "ss"
                [] sh = "oneint" -> "i"
+               [] sh = "arrst"  -> "a(ss)"      \* one value, not a struct itself, with a struct inside
 
 (* documented value convention *)
 ValueKind(sh) == CASE sh = "none"   -> "None"
                    [] sh = "one"    -> "single"
                    [] sh = "oneint" -> "single"
+                   [] sh = "arrst"  -> "single"
                    [] sh = "struct" -> "list"
                    [] sh = "many"   -> "list"
 
